@@ -25,6 +25,9 @@ class _File(Model):
     def write(self, s):
         self.text += s
 
+    def __iter__(self):
+        return iter([b'hello\n'] if 'b' in self.mode else ['hello\n'])
+
     def __enter__(self):
         return self
 
@@ -63,7 +66,7 @@ SCENARIOS = []
 
 def _scenario(name, **kw):
     d = dict(name=name, command='echo hello', raw_script='test_cmd.py', files=[], check_stdout=True, check_stderr=True,
-             exit_code=0, exclusions={}, ref_map={}, zec=True)
+             exit_code=0, exclusions={}, ref_map={}, zec=True, iterations=2)
     d.update(kw)
     SCENARIOS.append(d)
 
@@ -74,6 +77,7 @@ _scenario('no-stdout', check_stdout=False)
 _scenario('no-stderr', check_stderr=False)
 _scenario('no-streams', check_stdout=False, check_stderr=False, files=[(CWD + '/out.txt', 'text', None)])
 _scenario('exit-3', exit_code=3, zec=False)
+_scenario('one-iteration', iterations=1, files=[(CWD + '/sub/out.dat', 'text', 'ascii'), (CWD + '/plot.png', 'binary', None)])
 _scenario('script-name-awkward', raw_script='test_my-cmd.v2 (new).py')
 _scenario('script-name-unicode', raw_script='test_ünï.py')
 _scenario('script-in-subdir', raw_script='sub/dir/test_x.py')
@@ -102,6 +106,19 @@ def generate(p, sc):
         return f
     fake_open._pyeval_model = True
 
+    class _Detector(Model):
+        done = True
+        result = {'confidence': 0.99, 'encoding': 'ascii'}
+
+        def feed(self, line):
+            return None
+
+        def close(self):
+            return None
+
+    class _Chardet(Model):
+        UniversalDetector = _Detector
+
     def fake_print(*a, **k):
         return None
     fake_print._pyeval_model = True
@@ -111,13 +128,13 @@ def generate(p, sc):
     paths = [f[0] for f in sc['files']]
     refdir = CWD + '/ref/' + (script_base[5:-3] if script_base.startswith('test_') else script_base[4:-3])
     filetypes = {}
-    for path, kind, enc in sc['files']:
+    for path, kind, enc in (sc['files'] if sc['iterations'] > 1 else ()):     # with one run nothing has been classified yet
         short = posixpath.basename(sc['ref_map'].get(path, path))
         filetypes[short] = _FT(kind == 'text', enc)
     g.attrs.update(cwd=CWD, tmp_dir_shell_var='TMPDIR', tmpdir=TMP, tmpdir_used=False, command=sc['command'], raw_script=sc['raw_script'],
                    script=script, raw_files=[posixpath.relpath(x, CWD) if x.startswith(CWD + '/') else x for x in paths], verbose=False,
                    reference_files={1: list(paths), 2: list(paths)}, check_stdout=sc['check_stdout'], check_stderr=sc['check_stderr'],
-                   no_clobber=False, require_zero_exit_code=sc['zec'], relative_paths=False, iterations=2, warnings=[], refdir=refdir,
+                   no_clobber=False, require_zero_exit_code=sc['zec'], relative_paths=False, iterations=sc['iterations'], warnings=[], refdir=refdir,
                    ref_map=dict(sc['ref_map']), test_names=set(), test_qualifier=1, max_snapshot_files=100, with_timelog=True,
                    results={1: _Res(sc['exit_code']), 2: _Res(sc['exit_code'])},
                    exclusions={k: tuple(list(x) for x in v) for k, v in sc['exclusions'].items()}, filetypes=filetypes,
@@ -126,12 +143,16 @@ def generate(p, sc):
     I.extra_names['os'] = pure_os()
     I.extra_names['open'] = fake_open
     I.extra_names['print'] = fake_print
+    I.extra_names['chardet'] = _Chardet()
     try:
         I.call(ws, [], selfobj=g)
     except Raised as e:
         return None, 'raises (%s)' % e, refdir
     except Unsupported as e:
         raise AnalysisError('write_script is not evaluable in scenario %s: %s' % (sc['name'], e))
+    loose = [f.path for f in files if not ('w' in f.mode or 'a' in f.mode) and not posixpath.isabs(f.path)]
+    if loose:
+        return None, 'reads %r by a relative name: found only when the process happens to run in the directory that holds it' % loose[0], refdir
     written = [f for f in files if 'w' in f.mode or 'a' in f.mode]
     if len(written) != 1 or written[0].path != script:
         return None, 'writes %s instead of the script %s' % ([f.path for f in written], script), refdir
@@ -215,7 +236,10 @@ def run_rule(run, p, pid):
         text, err, refdir = generate(p, sc)
         key = 'scenario:%s' % sc['name']
         if text is None:
-            run.ob(rid, key + ':written', False, 'in scenario %s write_script %s' % (sc['name'], err), fn=ws)
+            if pid == 'C11':
+                run.ob(rid, key + ':written', False, 'in scenario %s write_script %s' % (sc['name'], err), fn=ws)
+            else:
+                run.note(rid, 'scenario %s: no script to read back (write_script %s) - a matter for C11-SCRIPT' % (sc['name'], err), fn=ws)
             continue
         try:
             rb = read_back(text)
